@@ -158,6 +158,13 @@ func (s *MemoryAllocationStore) SaveAllocation(ctx context.Context, alloc Alloca
 		}
 	}
 
+	// A subscriber that moves to another address gives up its previous IP index entry
+	if prev, exists := s.byPool[alloc.PoolID][alloc.SubscriberID]; exists {
+		if prevKey := prev.Prefix.IP.String(); prevKey != ipKey {
+			delete(s.byIP, prevKey)
+		}
+	}
+
 	// Update pool index
 	if s.byPool[alloc.PoolID] == nil {
 		s.byPool[alloc.PoolID] = make(map[string]AllocationRecord)
